@@ -44,10 +44,68 @@ def helpers() -> Dict[str, Any]:
     return _H
 
 
+def check_reuse(case: Dict[str, Any]) -> Outcome:
+    """an id is used again after an earlier request with that id was cancelled while a peer had its response in hand:
+    the new request must get what the server sends for IT - here an error of the given code."""
+    import asyncio
+
+    from chuk_mcp.protocol.messages.send_message import CancellationToken, send_message
+    from chuk_mcp.protocol.types.errors import NonRetryableError, RetryableError
+
+    out = Outcome(nontrivial=True, classes=("id-reused-after-a-cancelled-request",))
+    code = case["code"]
+    first: Dict[str, Any] = {}
+
+    async def call(r, w):
+        token = CancellationToken()
+
+        async def b():
+            try:
+                first["b"] = ("return", await send_message(r, w, "b/req", None, timeout=2.0, message_id="X", cancellation_token=token))
+            except BaseException as e:  # noqa
+                first["b"] = ("raise", type(e).__name__)
+                if isinstance(e, asyncio.CancelledError):
+                    raise
+
+        async def a():
+            await asyncio.sleep(0.05)
+            try:
+                first["a"] = ("return", await send_message(r, w, "a/req", None, timeout=2.0, message_id="A"))
+            except BaseException as e:  # noqa
+                first["a"] = ("raise", type(e).__name__)
+                if isinstance(e, asyncio.CancelledError):
+                    raise
+
+        async def cancel_later():
+            await asyncio.sleep(case.get("t_cancel", 53) / 100.0)
+            token.cancel()
+
+        tb, ta, tc_ = asyncio.ensure_future(b()), asyncio.ensure_future(a()), asyncio.ensure_future(cancel_later())
+        await asyncio.gather(tb, ta, tc_, return_exceptions=True)
+        await asyncio.sleep(max(0.0, 1.2 - asyncio.get_running_loop().time()))
+        return await send_message(r, w, "x/y", {"a": 1}, timeout=2.0, message_id="X")
+
+    schedule = [
+        (0.52, {"jsonrpc": "2.0", "id": "X", "result": {"stale": True}}),  # dequeued by the peer (the longer-waiting receiver)
+        (0.60, {"jsonrpc": "2.0", "id": "A", "result": {"ok": "a"}}),
+        (1.30, {"jsonrpc": "2.0", "id": "X", "error": {"code": code, "message": f"m{code}"}}),
+    ]
+    res = drive(call, schedule, max_vtime=10)
+    if res.outcome == "return":
+        out.fail("error-response-completed-normally", f"request reusing id 'X' returned {res.value!r} (earlier request with that id: {first.get('b')!r})")
+        return out
+    exc = res.exc
+    if type(exc) not in (RetryableError, NonRetryableError) or getattr(exc, "code", None) != code:
+        out.fail("error-response-raised-unclassified-exception", f"reused id: {type(exc).__name__}: {exc!r}; earlier: {first!r}")
+    return out
+
+
 def check(case: Dict[str, Any]) -> Outcome:
     out = Outcome()
     if case.get("static"):
         return check_static()
+    if case.get("reuse"):
+        return check_reuse(case)
     target = case["target"]
     code = case["code"]
     msg = case.get("message", "boom")
@@ -221,6 +279,10 @@ def job_enum(col: Collector, seed: int, tier: str, shard: int, nshards: int) -> 
                     case = {"target": target, "code": code, "message": f"m{code}", "typed": typed_, "peer": peer_}
                     col.record(case, check(case))
     if shard == 0:
+        for code in sorted(NAMED):
+            for t_cancel in (53, 70, 95):
+                case = {"reuse": True, "code": code, "t_cancel": t_cancel}
+                col.record(case, check(case))
         case = {"static": True}
         col.record(case, check(case))
         col.exhaustive_parts.append(f"codes -33100..-31900 and -200..200 ({len(RANGES)}) x {len(targets)} targets, shape 'message only'; named codes and every 7th code additionally with data and with message absent; named codes additionally as the typed error class and/or with a concurrent request that dequeues the error first")
